@@ -1122,6 +1122,15 @@ func (g *Gen) typeAssert(in *ssa.TypeAssert) {
 func (g *Gen) implFacts(it types.Type) {
 	iface := it.Underlying().(*types.Interface)
 	fn := sym("impl." + typeKey(it))
+	seen := false
+	for _, t := range g.implIfaces {
+		if types.Identical(t, it) {
+			seen = true
+		}
+	}
+	if !seen {
+		g.implIfaces = append(g.implIfaces, it)
+	}
 	for k, tag := range g.tags {
 		name := "implfact." + fn + "." + tag
 		if g.usedAxioms[name] {
